@@ -68,10 +68,58 @@ CONTRACTS = [
         timers={"fire": {"created_in": "source.on_next", "spec": "on_fire", "id": "s.gen", "inv": "current_id == k and k == _id[0]"}},
     ),
     OpContract(
-        name="sample_observable", props=["C16"], file=OPS + "_sample.py", func="sample_observable",
+        name="sample_observable", props=["C16"], timed=True, file=OPS + "_sample.py", func="sample_observable",
         call="sample_observable(source, sampler)", params={}, sources=("source", "sampler"),
         spec="specs.c17:sample",
         cells={"has_value": "bool", "value": "val", "at_end": "bool"},
         inv="has_value == s.has and implies(s.has, same(value, s.val)) and at_end == s.at_end",
     ),
+    OpContract(
+        name="timeout/relative", props=["C17"], file=OPS + "_timeout.py", func="timeout_",
+        call="timeout_(duetime, other, scheduler)(source)", params={"duetime": "nat", "absolute": "const:False"}, scheduler="scheduler",
+        sources=("source", "other"),
+        spec="specs.c17:timeout",
+        cells={"switched": "cell:bool", "_id": "cell:int", "timer.current": "optdisp"},
+        inv="switched[0] == s.switched and _id[0] == s.gen and s.gen >= 0 and timer.current is not None",
+        # after the end: the counter still mirrors the generation, so a timer left over from before the source's terminal
+        # is stale (k < gen: ghost invariant of the spec machine, proved) and must not switch; once a timer has switched it
+        # was the newest one, the older ones having been cancelled when replaced (assumed pending-set fact, see note)
+        inv_done="_id[0] == s.gen", live="not s.term and not s.switched",
+        timers={"first": {"created_in": "subscribe", "spec": "on_fire", "id": "s.gen", "inv": "my_id == k",
+                          "inv_done": "my_id == k and not s.switched", "ghost_inv": "k <= s.gen and implies(s.term, k < s.gen)"},
+                "rearmed": {"created_in": "source.on_next", "spec": "on_fire", "id": "s.gen", "inv": "my_id == k",
+                            "inv_done": "my_id == k and not s.switched", "ghost_inv": "k <= s.gen and implies(s.term, k < s.gen)"}},
+    ),
+    OpContract(
+        name="timeout/absolute", props=["C17"], file=OPS + "_timeout.py", func="timeout_",
+        call="timeout_(duetime, other, scheduler)(source)", params={"duetime": "datetime", "absolute": "const:True"}, scheduler="scheduler",
+        sources=("source", "other"),
+        spec="specs.c17:timeout",
+        cells={"switched": "cell:bool", "_id": "cell:int", "timer.current": "optdisp"},
+        inv="switched[0] == s.switched and _id[0] == s.gen and s.gen >= 0 and timer.current is not None",
+        # after the end: the counter still mirrors the generation, so a timer left over from before the source's terminal
+        # is stale (k < gen: ghost invariant of the spec machine, proved) and must not switch; once a timer has switched it
+        # was the newest one, the older ones having been cancelled when replaced (assumed pending-set fact, see note)
+        inv_done="_id[0] == s.gen", live="not s.term and not s.switched",
+        timers={"first": {"created_in": "subscribe", "spec": "on_fire", "id": "s.gen", "inv": "my_id == k",
+                          "inv_done": "my_id == k and not s.switched", "ghost_inv": "k <= s.gen and implies(s.term, k < s.gen)"},
+                "rearmed": {"created_in": "source.on_next", "spec": "on_fire", "id": "s.gen", "inv": "my_id == k",
+                            "inv_done": "my_id == k and not s.switched", "ghost_inv": "k <= s.gen and implies(s.term, k < s.gen)"}},
+    ),
+    OpContract(
+        name="delay_subscription/relative", props=["C15"], file=OPS + "_delaysubscription.py", func="delay_subscription_",
+        call="delay_subscription_(duetime, scheduler)(source)", params={"duetime": "nat", "absolute": "const:False"}, scheduler="scheduler",
+        spec="specs.c17:delay_subscription", inv="True",
+        timers={"fire": {"created_in": "subscribe", "spec": "on_fire"}},
+    ),
+    OpContract(
+        name="delay_subscription/absolute", props=["C15"], file=OPS + "_delaysubscription.py", func="delay_subscription_",
+        call="delay_subscription_(duetime, scheduler)(source)", params={"duetime": "datetime", "absolute": "const:True"}, scheduler="scheduler",
+        spec="specs.c17:delay_subscription", inv="True",
+        timers={"fire": {"created_in": "subscribe", "spec": "on_fire"}},
+    ),
 ]
+for _c in CONTRACTS:
+    if _c.name.startswith("delay_subscription"):
+        _c.late_subscribe = True
+
